@@ -31,6 +31,7 @@ class DayAbs(object):
         self.fn = fn
         self.start, self.end = start, end
         self.defs = {}
+        self.busy = {}
         for n in walk_own(fn.node):
             if isinstance(n, ast.Assign) and isinstance(n.targets[0], ast.Name):
                 self.defs.setdefault(n.targets[0].id, []).append(n.value)
@@ -46,6 +47,23 @@ class DayAbs(object):
             ds = self.defs.get(e.id, [])
             if len(ds) == 1:
                 return self.ev(ds[0], depth + 1)
+            if ds and e.id not in self.busy:
+                # several definitions (a copy that is then defaulted: `x = end; x = x or now()`): all must denote the same value, the
+                # ones that mention the name itself being judged under the value of the others
+                self.busy[e.id] = None
+                plain = [d for d in ds if not any(isinstance(x, ast.Name) and x.id == e.id for x in ast.walk(d))]
+                vals = {self.ev(d, depth + 1) for d in plain}
+                if len(vals) == 1 and TOP not in vals:
+                    self.busy[e.id] = list(vals)[0]
+                    rest = {self.ev(d, depth + 1) for d in ds if d not in plain}
+                    del self.busy[e.id]
+                    if rest <= vals:
+                        return list(vals)[0]
+                else:
+                    del self.busy[e.id]
+                return TOP
+            if e.id in self.busy and self.busy[e.id] is not None:
+                return self.busy[e.id]
             return TOP
         if isinstance(e, ast.BoolOp) and isinstance(e.op, ast.Or):
             # end_date or datetime.utcnow(): still "the end instant"
@@ -209,9 +227,22 @@ def _run_rest(ctx, res):
         res.add(Finding('C16', 'C16.a', 'R-ABSINT', enum.file, enum.qualname, found[0].lineno if found else enum.node.lineno,
                         norm(found[0]) if found else 'day enumeration', why))
     # end defaults to now before the enumeration
-    dflt = [n for n in walk_own(enum.node) if isinstance(n, ast.Assign) and isinstance(n.targets[0], ast.Name) and n.targets[0].id == end
-            and isinstance(n.value, ast.BoolOp) and isinstance(n.value.op, ast.Or)]
-    okd = bool(dflt) and (found is None or dflt[0].lineno < found[0].lineno)
+    def is_now_default(v, names):
+        return isinstance(v, ast.BoolOp) and isinstance(v.op, ast.Or) and len(v.values) == 2 and isinstance(v.values[0], ast.Name) and \
+            v.values[0].id in names and any(isinstance(c, ast.Call) and norm(c.func).split('.')[-1] in ('utcnow', 'now') for c in ast.walk(v.values[1]))
+    # names that stand for the end bound: the parameter and locals only ever bound to it / to its defaulted form
+    aliases = {end}
+    grew = True
+    while grew:
+        grew = False
+        for nm, ds in da.defs.items():
+            if nm not in aliases and nm not in params and ds and all((isinstance(d, ast.Name) and d.id in aliases) or is_now_default(d, aliases | {nm}) for d in ds):
+                aliases.add(nm)
+                grew = True
+    dflt = [n for n in walk_own(enum.node) if isinstance(n, ast.Assign) and isinstance(n.targets[0], ast.Name) and n.targets[0].id in aliases
+            and is_now_default(n.value, aliases)]
+    in_count = {x.id for x in ast.walk(found[1]) if isinstance(x, ast.Name) and x.id in aliases} if found is not None else set()
+    okd = bool(dflt) and (found is None or (all(d.lineno < found[0].lineno for d in dflt) and in_count <= {d.targets[0].id for d in dflt}))
     if not okd and found is not None:
         # the same through an explaining variable: every use of the end parameter in the day count is `end or <now>`
         from ..loader import expand_locals
